@@ -1,22 +1,27 @@
 #!/bin/sh
-# Builds the framework from files on disk only and warms the Go build cache.
+# Builds the framework from files on disk only and warms the Go build cache
+# (plain, instrumented and -race builds, with the same flags check.sh uses).
 set -e
 V=/verif
 export GOFLAGS=-mod=mod GOPROXY=off GOSUMDB=off GOTOOLCHAIN=local
 mkdir -p $V/bin $V/.work $V/evidence
 cd $V/harness
-go vet ./core/ ./oracle/grid/ >/dev/null 2>&1 || true
-if [ -d cmd/instrument ]; then go build -o $V/bin/instrument ./cmd/instrument; fi
-# warm the cache: one explorer build with the hooks (same flags check.sh uses)
-W=$V/.work/setup.$$; mkdir -p $W; trap 'rm -rf $W' EXIT
-{
-  printf '{"Replace":{'; sep=""
+go build -o $V/bin/instrument ./cmd/instrument
+W=$V/.work/setup.$$; mkdir -p $W/inst; trap 'rm -rf $W' EXIT
+hooks_entries() {
+  sep=""
   for f in $V/hooks/*_zz_verif.go; do
     pkg=$(basename "$f" _zz_verif.go)
     if [ "$pkg" = root ]; then dst=/repo/zz_verif.go; else dst=/repo/$pkg/zz_verif.go; fi
     printf '%s"%s":"%s"' "$sep" "$dst" "$f"; sep=","
   done
-  printf '}}\n'
-} > $W/overlay.json
+}
+{ printf '{"Replace":{'; hooks_entries; printf '}}\n'; } > $W/overlay.json
 go build -tags verif -overlay $W/overlay.json -o $W/explorer ./cmd/explorer
+$V/bin/instrument -repo /repo -out $W/inst > $W/inst.map
+{ printf '{"Replace":{'; hooks_entries; while read -r src dst; do printf ',"%s":"%s"' "$src" "$dst"; done < $W/inst.map; printf '}}\n'; } > $W/overlay_s.json
+go build -tags "verif verifsched" -overlay $W/overlay_s.json -o $W/explorer_s ./cmd/explorer
+go build -race -tags verif -overlay $W/overlay.json -o $W/racepass ./cmd/racepass
+# self-test of the reference decoders on their own unit tests (fast ones)
+go test -count=1 ./oracle/lin1d/ ./oracle/grid/ >/dev/null 2>&1 || true
 echo "setup ok"
